@@ -327,18 +327,27 @@ def reset_contract(h):
     h.oblige("the connect attempt is scheduled after the disconnect completed", 0 <= di < ci)
 
 
-@oset("socket.close", ["C15", "C16"], [F_CLOSE])
+CLOSE_MARKS_FIRST = ("the socket is marked not open before close first suspends (a connection attempt that completes during "
+                     "the disconnect is dropped, not adopted)")
+
+
+@oset("socket.close", ["C15", "C16", "C07"], [F_CLOSE])
 def close_contract(h):
     if not h.symbolic:
         from replay import more_scenarios as M
-        M.oblige_from(h, [M.close_scenarios], {"close lets no exception out", "afterwards the socket is not open", "close schedules nothing", "an open socket is disconnected by close"})
+        M.oblige_from(h, [M.close_scenarios], {"close lets no exception out", "afterwards the socket is not open", "close schedules nothing", "an open socket is disconnected by close",
+                                               CLOSE_MARKS_FIRST})
         return
     W = SockWorld(h)
     sock = W.make_socket()
     was_open = sock.attrs["is_open"]
-    stub_async(W, F_DISC, "_disconnect", [None])
+    open_at_disconnect = []
+    stub_async(W, F_DISC, "_disconnect", [None], needs=lambda a, k: open_at_disconnect.append(sock.attrs["is_open"]))
     r = h.method(sock, "close")
     h.oblige("close lets no exception out", r.ok)
+    # _disconnect suspends (wait_closed, the subscribers): whatever completes meanwhile - a connection attempt in
+    # flight, a reset by the read loop - must already see a closed socket, or it adopts a connection nobody closes
+    h.oblige(CLOSE_MARKS_FIRST, And(*[h.eq(v, False) for v in open_at_disconnect]) if open_at_disconnect else True)
     h.oblige("afterwards the socket is not open", h.eq(sock.attrs["is_open"], False))
     h.oblige("an open socket is disconnected by close", Implies(was_open, len(calls(W, "_disconnect")) == 1) if not isinstance(was_open, bool) else (len(calls(W, "_disconnect")) == 1 if was_open else True))
     h.oblige("close schedules nothing", scheduled(W) == [])
